@@ -1,0 +1,63 @@
+//go:build verif
+
+package keeper
+
+// Contracts for the deductive verifier in /verif (govc). Comment-only; compiled only with -tags verif.
+
+//@ contract (*Keeper).recvPacket
+//@   let D = packet.DestinationClient
+//@   let s = packet.Sequence
+//@   let S0 = store(ctx)
+//@   let cp = k.clientV2Keeper.GetClientCounterparty(ctx, D)
+//@   let cpFound = nth(k.clientV2Keeper.GetClientCounterparty(ctx, D), 1)
+//@   let alias = k.GetClientForAlias(ctx, D)
+//@   let isAlias = nth(k.GetClientForAlias(ctx, D), 1)
+//@   let clientID = ite(isAlias, alias, D)
+//@   let rkey = hostv2.PacketReceiptKey(D, s)
+//@   let nowSec = (blocktime(ctx) / 1000000000) % 18446744073709551616
+//@   modifies world(ctx)
+//@   ensures counterparty: err == nil ==> cpFound && cp.ClientId == packet.SourceClient
+//@   ensures not_elapsed: err == nil ==> nowSec < packet.TimeoutTimestamp
+//@   ensures fresh: err == nil ==> !has(S0, rkey)
+//@   ensures proven: err == nil ==> ProvenMembership(clientID, proofHeight, 0, 0, box(types.BuildMerklePath(cp.MerklePrefix, hostv2.PacketCommitmentKey(packet.SourceClient, s))), types.CommitPacket(packet))
+//@   ensures frame: err == nil ==> store(ctx) == set(S0, rkey, str(2)) && world(ctx) == withKV(old(world(ctx)), k.storeService, store(ctx))
+//@   ensures fail_unchanged: err != nil ==> world(ctx) == old(world(ctx))
+//@   ensures noop_received: errIs(err, types.ErrNoOpMsg) ==> has(S0, rkey)
+
+//@ contract (*Keeper).acknowledgePacket
+//@   let Sc = packet.SourceClient
+//@   let s = packet.Sequence
+//@   let S0 = store(ctx)
+//@   let cp = k.clientV2Keeper.GetClientCounterparty(ctx, Sc)
+//@   let cpFound = nth(k.clientV2Keeper.GetClientCounterparty(ctx, Sc), 1)
+//@   let alias = k.GetClientForAlias(ctx, Sc)
+//@   let isAlias = nth(k.GetClientForAlias(ctx, Sc), 1)
+//@   let clientID = ite(isAlias, alias, Sc)
+//@   let ckey = hostv2.PacketCommitmentKey(Sc, s)
+//@   modifies world(ctx)
+//@   ensures counterparty: err == nil ==> cpFound && cp.ClientId == packet.DestinationClient
+//@   ensures committed: err == nil ==> get(S0, ckey) != "" && get(S0, ckey) == types.CommitPacket(packet)
+//@   ensures proven: err == nil ==> ProvenMembership(clientID, proofHeight, 0, 0, box(types.BuildMerklePath(cp.MerklePrefix, hostv2.PacketAcknowledgementKey(packet.DestinationClient, s))), types.CommitAcknowledgement(acknowledgement))
+//@   ensures frame: err == nil ==> store(ctx) == del(S0, ckey) && world(ctx) == withKV(old(world(ctx)), k.storeService, store(ctx))
+//@   ensures fail_unchanged: err != nil ==> world(ctx) == old(world(ctx))
+//@   ensures noop_absent: errIs(err, types.ErrNoOpMsg) ==> get(S0, ckey) == ""
+
+//@ contract (*Keeper).timeoutPacket
+//@   let Sc = packet.SourceClient
+//@   let s = packet.Sequence
+//@   let S0 = store(ctx)
+//@   let cp = k.clientV2Keeper.GetClientCounterparty(ctx, Sc)
+//@   let cpFound = nth(k.clientV2Keeper.GetClientCounterparty(ctx, Sc), 1)
+//@   let alias = k.GetClientForAlias(ctx, Sc)
+//@   let isAlias = nth(k.GetClientForAlias(ctx, Sc), 1)
+//@   let clientID = ite(isAlias, alias, Sc)
+//@   let ckey = hostv2.PacketCommitmentKey(Sc, s)
+//@   let ptsNano = clientTimestampAtV2(world(ctx), clientID, proofHeight)
+//@   modifies world(ctx)
+//@   ensures counterparty: err == nil ==> cpFound && cp.ClientId == packet.DestinationClient
+//@   ensures elapsed: err == nil ==> clientTimestampErrV2(old(world(ctx)), clientID, proofHeight) == nil && packet.TimeoutTimestamp <= (ite(ptsNano < 9223372036854775808, ptsNano, ptsNano - 18446744073709551616) / 1000000000) % 18446744073709551616
+//@   ensures committed: err == nil ==> get(S0, ckey) != "" && get(S0, ckey) == types.CommitPacket(packet)
+//@   ensures proven: err == nil ==> ProvenNonMembership(clientID, proofHeight, 0, 0, box(types.BuildMerklePath(cp.MerklePrefix, hostv2.PacketReceiptKey(packet.DestinationClient, s))))
+//@   ensures frame: err == nil ==> store(ctx) == del(S0, ckey) && world(ctx) == withKV(old(world(ctx)), k.storeService, store(ctx))
+//@   ensures fail_unchanged: err != nil ==> world(ctx) == old(world(ctx))
+//@   ensures noop_absent: errIs(err, types.ErrNoOpMsg) ==> get(S0, ckey) == ""
